@@ -209,7 +209,7 @@ pub fn execute(p: &P, ops: &[(u64, Op)], seed: u64) -> RunOut {
                         w.spawn(*node, gen);
                         w.stats.inc("fault_restart");
                         if *restore {
-                            if let Some(st) = saved.get(node).or_else(|| { w.stats.inc("fault_restart_with_stale_snapshot"); stale.get(node) }) {
+                            if let Some(st) = saved.get(node).or_else(|| { let st = stale.get(node); if st.is_some() { w.stats.inc("fault_restart_with_stale_snapshot"); } st }) {
                                 // only durable state survives: the membership snapshot saved before the crash
                                 w.call(*node, Input::ApplyMany(st.clone(), false));
                                 w.stats.inc("fault_restart_with_snapshot");
